@@ -158,46 +158,8 @@ Theorem fanout_size_spec : forall (RG CT DP : Type) (default_params : Z -> optio
 Proof. exact @fanout_size_lemma. Qed.
 Print Assumptions fanout_size_spec.
 
-(* from_pruned, as the code does it (sectors_for: list forms give atom i its own list; an int d_sectors gives
-   every atom the bare number; an int s_sectors is rejected by sec_lengths_ok) *)
-Theorem fanout_pruned_spec_partial : forall (RG CT RAD RV DP : Type) (default_params : Z -> option DP)
-  atnums (atcoords : list CT) (radius : radius_arg RAD) (r_sectors : list (list RV)) d s (rgrid : rgrid_arg RG) rotate calls,
-  from_pruned_fanout default_params atnums atcoords radius r_sectors d s rgrid rotate = Some calls <->
-  length atnums = length atcoords /\ sec_lengths_ok d s (length atcoords) (length r_sectors) /\
-  length calls = length atnums /\
-  forall i a, nth_error atnums i = Some a ->
-    exists rad ra rs dd ss c,
-      nth_error calls i = Some (PrunedCall rad ra rs dd ss c rotate) /\
-      rgrid_for default_params rgrid i a rad /\ radius_for radius (length atcoords) i ra /\
-      nth_error r_sectors i = Some rs /\ sectors_for d s (length atcoords) i dd ss /\
-      nth_error atcoords i = Some c.
-Proof. exact @fanout_pruned_lemma. Qed.
-Print Assumptions fanout_pruned_spec_partial.
-
-(* on the list forms this is the documented fan-out ... *)
-Theorem fanout_pruned_documented_partial : forall (RG CT RAD RV DP : Type) (default_params : Z -> option DP)
-  atnums (atcoords : list CT) (radius : radius_arg RAD) (r_sectors : list (list RV)) dl s (rgrid : rgrid_arg RG) rotate,
-  (forall z, s <> SsInt z) ->
-  from_pruned_fanout default_params atnums atcoords radius r_sectors (DsList dl) s rgrid rotate =
-  from_pruned_documented default_params atnums atcoords radius r_sectors (DsList dl) s rgrid rotate.
-Proof. exact @fanout_pruned_documented_lemma. Qed.
-Print Assumptions fanout_pruned_documented_partial.
-
-(* ... but not on the documented integer forms (d_sectors=50 is the default argument): the atoms receive a bare
-   number, which AtomGrid.from_pruned does not take, or nothing at all *)
-Theorem fanout_pruned_int_refuted :
-  (exists calls,
-     from_pruned_fanout ex_dp [1%Z; 8%Z] [10%Z; 20%Z] (RadScalar 5%Z) ex_rs (DsInt 50) SsNone (RgOne 7%Z) 37%Z = Some calls /\
-     forallb pruned_call_ok calls = false) /\
-  from_pruned_fanout ex_dp [1%Z; 8%Z] [10%Z; 20%Z] (RadScalar 5%Z) ex_rs (DsInt 50) (SsInt 6) (RgOne 7%Z) 37%Z = None /\
-  (exists calls,
-     from_pruned_documented ex_dp [1%Z; 8%Z] [10%Z; 20%Z] (RadScalar 5%Z) ex_rs (DsInt 50) SsNone (RgOne 7%Z) 37%Z = Some calls /\
-     forallb pruned_call_ok calls = true) /\
-  (exists calls,
-     from_pruned_documented ex_dp [1%Z; 8%Z] [10%Z; 20%Z] (RadScalar 5%Z) ex_rs (DsInt 50) (SsInt 6) (RgOne 7%Z) 37%Z = Some calls /\
-     forallb pruned_call_ok calls = true).
-Proof. exact fanout_pruned_int_refuted_lemma. Qed.
-Print Assumptions fanout_pruned_int_refuted.
+(* from_pruned: C07_props_gen.v (list forms) and C07_props_pruned.v (integer forms), about the normalisation statements
+   re-translated from the current source *)
 
 (* ---- each constructor = "build the atomic grids by hand with these calls and call MolGrid" (aim_weights=None
    standing for BeckeWeights(order=3)) *)
@@ -214,9 +176,9 @@ Theorem constructors_by_hand : forall (T : Type) (o : NumOps T) (RG PR CT RAD RV
      from_size_fanout default_params atnums atcoords size rgrid rotate = Some calls ->
      mol_from_size o default_params becke3 build_size atnums atcoords size rgrid aim rotate store =
      by_hand o becke3 build_size atnums calls aim store) /\
-  (forall atnums atcoords radius r_sectors d s rgrid aim rotate store calls,
-     from_pruned_fanout default_params atnums atcoords radius r_sectors d s rgrid rotate = Some calls ->
-     mol_from_pruned o default_params becke3 build_pruned atnums atcoords radius r_sectors d s rgrid aim rotate store =
+  (forall norm atnums atcoords radius r_sectors d s rgrid aim rotate store calls,
+     from_pruned_fanout_with default_params norm atnums atcoords radius r_sectors d s rgrid rotate = Some calls ->
+     mol_from_pruned o default_params becke3 build_pruned norm atnums atcoords radius r_sectors d s rgrid aim rotate store =
      by_hand o becke3 build_pruned atnums calls aim store) /\
   (forall CALL (build : CALL -> option (@atgrid T)) atnums calls aim store gs,
      mapM build calls = Some gs ->
